@@ -34,7 +34,7 @@ PLAN = {
     "thorough": {"shards": 16, "shard_timeout": 3600, "case_timeout": 120, "inproc": 100000, "strace": 200, "failpoints": 5000, "sigkill": 500, "max_case_timeouts": 8},
 }
 THRESHOLDS = {
-    "quick": {"disk_reads_after_register": 3000, "rows_compared": 3000, "multi_objective_rows": 800, "extra_field_cells": 1500, "simplegp_runs": 10, "strace_runs": 6, "strace_writes": 100, "crash_files_checked": 40, "set:kill_points": 15, "only_best_runs": 60, "set:special_cells_seen": 12, "simplegp_ambiguous_runs": 10, "rows_of_lookalike_programs": 20},
+    "quick": {"disk_reads_after_register": 3000, "rows_compared": 3000, "multi_objective_rows": 800, "extra_field_cells": 1500, "simplegp_runs": 10, "strace_runs": 6, "strace_writes": 100, "crash_files_checked": 40, "set:kill_points": 15, "only_best_runs": 60, "set:special_cells_seen": 12, "simplegp_ambiguous_runs": 10, "rows_of_lookalike_programs": 20, "field_configuration:empty+extra": 15, "field_configuration:explicit+extra": 15, "field_configuration:default+noextra": 15},
     "thorough": {"disk_reads_after_register": 80000, "crash_files_checked": 650, "set:kill_points": 60, "strace_runs": 35},
 }
 
@@ -46,7 +46,7 @@ def gen_cases(tier, seed):
     rng = pyrandom.Random(f"c20-{seed}")
     plan = PLAN[tier]
     for i in range(plan["inproc"]):
-        yield {"kind": "inproc", "nobj": rng.choice([1, 1, 2, 3, 4]), "fields": rng.choice(["default", "default", "explicit", "extra", "extra"]), "only_best": rng.random() < 0.4, "n": rng.randint(1, 25), "via": "simplegp" if i % 12 == 0 else "direct", "seed": rng.randrange(10**6)}
+        yield {"kind": "inproc", "nobj": rng.choice([1, 1, 2, 3, 4]), "fields": rng.choice(["default", "default", "explicit", "extra", "extra", "explicit+extra", "empty+extra", "default+noextra"]), "only_best": rng.random() < 0.4, "n": rng.randint(1, 25), "via": "simplegp" if i % 12 == 0 else "direct", "seed": rng.randrange(10**6)}
     for i in range(plan["strace"]):
         yield {"kind": "strace", "nobj": rng.choice([1, 2, 3]), "only_best": i % 3 == 0, "alg": rng.choice(["rs", "gp"]), "n": rng.randint(15, 40), "seed": rng.randrange(10**6)}
     for i in range(plan["failpoints"]):
@@ -118,16 +118,23 @@ def run_inproc(case, rec):
         return NASTY[k]
 
     extra = {"Size": lambda t, i, p: len(evo.text(i.get_phenotype())), "Tag": lambda t, i, p: "x," + evo.text(i.get_phenotype())[:6] + '"q', "Raw": lambda t, i, p: nasty(i)}
+    # configuration = (fields: not given / explicit / explicitly EMPTY) x (extra_fields: not given / given / explicitly empty)
+    base_cfg, _, extra_cfg = case["fields"].partition("+")
+    if base_cfg == "extra":
+        base_cfg, extra_cfg = "default", "extra"
     fields = None
-    if case["fields"] == "explicit":
+    if base_cfg == "explicit":
         fields = {"A": lambda t, i, p: evo.text(i.get_phenotype()), "B": lambda t, i, p: i.get_fitness(p).fitness_components[-1]}
+    elif base_cfg == "empty":
+        fields = {}  # "none of the standard columns"
     model_fields: list = []
-    if fields is not None:
+    if base_cfg == "explicit":
         model_fields = [("A", lambda i: evo.text(i.get_phenotype())), ("B", lambda i: table[id(i.get_phenotype())][-1])]
-    else:
+    elif base_cfg == "default":
         model_fields = [("Execution Time", None), ("Phenotype", lambda i: str(i.get_phenotype()))] + [(f"Fitness{k}", (lambda i, k=k: table[id(i.get_phenotype())][k])) for k in range(nobj)]
-    if case["fields"] == "extra":
+    if extra_cfg == "extra":
         model_fields += [("Size", lambda i: len(evo.text(i.get_phenotype()))), ("Tag", lambda i: "x," + evo.text(i.get_phenotype())[:6] + '"q'), ("Raw", nasty)]
+    rec.count(f"field_configuration:{base_cfg}+{extra_cfg or 'none'}")
     wit = {"objectives": nobj, "fields": case["fields"], "only_best": case["only_best"], "registrations": case["n"]}
     state = {"expected": [], "bad": False}
 
@@ -177,7 +184,7 @@ def run_inproc(case, rec):
                     return
 
     try:
-        r = Probe(path, prob, fields=fields, extra_fields=extra if case["fields"] == "extra" else None, only_record_best_individuals=case["only_best"])
+        r = Probe(path, prob, fields=fields, extra_fields=extra if extra_cfg == "extra" else ({} if extra_cfg == "noextra" else None), only_record_best_individuals=case["only_best"])
         check_disk("after-construction")
         tr = (SingleObjectiveProgressTracker if nobj == 1 else MultiObjectiveProgressTracker)(prob, SequentialEvaluator(), recorders=[r])
         for ind in inds:
